@@ -13,7 +13,8 @@ This module
   * validates the translator itself (the trusted part) by a differential run: the extracted C++ text of each function
     is compiled stand-alone (g++, a tiny `extern "C"` shim with stub types, cached under /var/tmp/mahotas-verif) and
     compared with the generated Lean definition, evaluated by the native driver (op `cs`), on boundary-dense inputs.
-    A disagreement is a broken correspondence: kind='model', key='cscalar:<function>'.
+    A disagreement is a broken correspondence: kind='model', key='cscalar:<function>'. A unit that does not compile against
+    the stub types only loses the differential of that function (tag `differential=skipped-unit-does-not-compile`).
 """
 from __future__ import annotations
 import ctypes, fcntl, hashlib, os, subprocess
@@ -124,6 +125,7 @@ namespace numpy {
     };
     template <typename T> struct aligned_array {
         T* p; npy_intp n; npy_intp dims2[2]; mutable long trace[64]; mutable int ntrace;
+        T* data() { return p; } const T* data() const { return p; } T* end() { return p + n; } const T* end() const { return p + n; }
         npy_intp dim(int k) const { return dims2[k]; }
         T at(int y, int x) const { if (ntrace < 62) { trace[ntrace++] = y; trace[ntrace++] = x; } return T(); }
         typedef T* iterator; typedef const T* const_iterator;
@@ -163,7 +165,7 @@ def _unit(srcs: dict) -> str:
         s.append('extern "C" long cs_margin_of(int nd, const long* dims, const long* pos) { numpy::position p; p.nd_ = nd; '
                  'numpy::array_base<int> r; r.nd = nd; for (int i = 0; i < nd; ++i) { p.position_[i] = pos[i]; r.dims[i] = dims[i]; } '
                  'return margin_of<int>(p, r); }')
-    if 'isLeft' in have or 'forward_cmp' in have:
+    if 'isLeft' in have or 'forward_cmp' in have or 'reverse_cmp' in have:
         s.append('namespace { struct Point { Point(int y_, int x_):y(y_), x(x_) { } long y, x; };')
         for k in ('forward_cmp', 'reverse_cmp', 'isLeft'):
             if k in have:
@@ -222,10 +224,11 @@ def _unit(srcs: dict) -> str:
     return '\n'.join(s) + '\n'
 
 
-# one compilation unit per group of functions: an edit that stops one group from compiling stand-alone (a new helper, a new
-# type) is reported for the functions of that group only
-GROUPS = [['fix_offset'], ['t_abs', 'subm_elem', 'margin_of', 'erode_sub', 'erode_sub_bool', 'dilate_add', 'dilate_add_bool'],
-          ['isLeft', 'forward_cmp', 'reverse_cmp'], ['at_flat', 'pos_to_flat', 'flat_to_pos'],
+# one compilation unit per function (per group where one calls the other): an edit that stops a unit from compiling
+# stand-alone (it uses something the stub types do not offer) costs the differential of that function only — and is not
+# a finding: translation and tie are checked independently of it, the differential only validates the translator
+GROUPS = [['fix_offset'], ['t_abs'], ['subm_elem'], ['margin_of'], ['erode_sub', 'erode_sub_bool'], ['dilate_add', 'dilate_add_bool'],
+          ['isLeft'], ['forward_cmp'], ['reverse_cmp'], ['at_flat'], ['pos_to_flat'], ['flat_to_pos'],
           ['sum_rect', 'csum_rect', 'haar_x', 'haar_y'], ['roll_right', 'lbp_map']]
 _LIB = {}
 _SRCS = None
@@ -383,7 +386,11 @@ def evaluate(cases):
         findings = []
         n = len(c['rows'])
         if real is None:
-            findings.append(dict(kind='model', key=key, detail=dict(what=err)))
+            # the extracted text does not compile against the stub types: the differential of this function is skipped
+            # (recorded in the tags); translation failures and broken ties are reported by the Lean obligations
+            tags['differential'] = 'skipped-unit-does-not-compile'
+            out.append(dict(findings=[], nontrivial=False, n=0, sig=None, tags=tags, note=(err or '')[:300]))
+            continue
         else:
             bad = []
             for row, d, r in zip(c['rows'], drv[a:b], real):
